@@ -44,7 +44,7 @@ def op_str(op):
     if k in ('clone', 'clonefrom'): return f'{k} {op[1]} {op[2]}'
     if k == 'pushitem': return f'pushitem {op[1]} {op[2]} {op[3]} {1 if op[4] else 0}'
     if k == 'cloneonto': return f'cloneonto {op[1]} {op[2]} {gen.show(op[3])}'
-    if k == 'resitems': return f'resitems {op[1]} {gen.show(list(op[2]))}'
+    if k == 'resitems': return f'resitems {op[1]} {gen.show(list(op[2]))}' + (f' {op[3]}' if len(op) > 3 and op[3] else '')
     if k == 'resregs': return f'resregs {op[1]} {ints(op[2])}'
     if k == 'cmp': return f'cmp {op[1]} {op[2]} {1 if op[3] else 0} {op[4]} {op[5]} {1 if op[6] else 0}'
     raise ValueError(op)
@@ -403,7 +403,7 @@ def c02(ctx):
             for _ in range(ctx.rng.choice([0, 2, 5])): ops.append(hg.push(1))
             for _ in range(ctx.rng.choice([4, 10, 25] if not ctx.thorough else [10, 40, 150])):
                 r = ctx.rng.random()
-                if r < 0.1 and c['reserve_items'] and catalogue.ref_ok(e): ops.append(('resitems', 0, [hg.value() for _ in range(ctx.rng.randrange(4))]))
+                if r < 0.1 and c['reserve_items'] and catalogue.ref_ok(e): ops.append(('resitems', 0, [hg.value() for _ in range(ctx.rng.randrange(4))], ctx.rng.randrange(len(catalogue.reserve_forms(e)))))
                 elif r < 0.2 and c['reserve_regions']: ops.append(('resregs', 0, [1]))
                 else: ops.append(hg.push(0))
                 ops.append(('probe', 0))
@@ -568,7 +568,7 @@ def c10(ctx):
             for _ in range(ctx.rng.choice([2, 5, 10])):
                 r = ctx.rng.random()
                 if r < 0.2 and c['reserve_items'] and catalogue.ref_ok(e):
-                    ops.append(('resitems', 0, [hg.value() for _ in range(ctx.rng.randrange(5))]))
+                    ops.append(('resitems', 0, [hg.value() for _ in range(ctx.rng.randrange(5))], ctx.rng.randrange(len(catalogue.reserve_forms(e)))))
                 elif r < 0.4 and c['reserve_regions']: ops.append(('resregs', 0, ctx.rng.choice([[2], [2, 2], []])))
                 else:
                     p = hg.push(0); ops.append(p); ops.append(('push', 1, p[2], p[3], 'twin'))
@@ -1646,7 +1646,7 @@ def c17(ctx):
             batch = [hg.value(repeat=0.2) for _ in range(ctx.rng.choice([1, 5, 30, 60]))]
             kind = ctx.rng.choice(['items', 'regions', 'merge'])
             ops = list(pre)
-            if kind == 'items': ops += [('resitems', 0, batch)]
+            if kind == 'items': ops += [('resitems', 0, batch, (it + ctx.rng.randrange(2)) % len(catalogue.reserve_forms(e)))]   # every announcing form in turn
             elif kind == 'regions': ops += [('push', 1, f, v) for v in batch] + [('resregs', 0, [1])]
             else: ops = [('push', 1, f, v) for v in batch] + [('merge', 0, [1])]
             ops += [('heap', 0), ('allocs', 0)] + [('push', 0, f, v) for v in batch] + [('allocs', 0), ('heap', 0), ('probe', 0)]
